@@ -230,6 +230,145 @@ func ruleErrs(r *Run, p *Program, rule string) {
 	r.universe(rule, n, 60)
 }
 
+// errResultUnused: nothing reads the error result of call c.
+func errResultUnused(c *ssa.Call) bool {
+	sig := c.Call.Signature()
+	if sig == nil || sig.Results().Len() == 0 {
+		return false
+	}
+	if c.Referrers() == nil {
+		return true
+	}
+	n := sig.Results().Len()
+	if n == 1 {
+		return len(*c.Referrers()) == 0
+	}
+	for _, rf := range *c.Referrers() {
+		if ex, ok := rf.(*ssa.Extract); ok && ex.Index == n-1 && ex.Referrers() != nil && len(*ex.Referrers()) > 0 {
+			return false
+		}
+	}
+	return true
+}
+
+// benignDrop: the dropped error of call c is one of the accepted clean-up idioms (see ruleErrs).
+func benignDrop(p *Program, c *ssa.Call) (bool, string) {
+	f := c.Parent()
+	cc := &c.Call
+	// Close of a handle that this function opened read-only
+	if cc.IsInvoke() && cc.Method.Name() == "Close" {
+		for _, s := range sources(cc.Value) {
+			x := s
+			for d := 0; d < 6; d++ {
+				switch y := x.(type) {
+				case *ssa.UnOp:
+					x = y.X
+					continue
+				case *ssa.FieldAddr:
+					x = y.X
+					continue
+				case *ssa.Field:
+					x = y.X
+					continue
+				}
+				break
+			}
+			if oc, idx := callResult(x); oc != nil && idx <= 0 && calleeKey(&oc.Call) == "pogreb.openFile" && len(oc.Call.Args) == 3 && openFlagsReadOnly(oc.Call.Args[2]) {
+				return true, "close of a read-only handle"
+			}
+		}
+	}
+	// cleanup on a failing path of f
+	{
+		w := &Walk{Fn: f}
+		w.From(c)
+		onlyFail, any := true, false
+		for _, ret := range returnsOf(f) {
+			if w.Visited[ret] {
+				any = true
+				if !isFailureReturn(f, ret) {
+					onlyFail = false
+				}
+			}
+		}
+		if any && onlyFail {
+			return true, "cleanup on a path that already fails"
+		}
+	}
+	par := f.Parent()
+	if par == nil {
+		return false, ""
+	}
+	// a local clean-up helper called only on failing paths of its parent
+	{
+		var sites []ssa.Instruction
+		instrsOf(par, func(x ssa.Instruction) {
+			if pc, ok := x.(*ssa.Call); ok {
+				if g, _, _ := resolveFuncValue(&Ctx{Fn: par}, pc.Call.Value, 0); g == f {
+					sites = append(sites, pc)
+				}
+			}
+		})
+		allFail := len(sites) > 0
+		for _, site := range sites {
+			w := &Walk{Fn: par}
+			w.From(site)
+			any := false
+			for _, ret := range returnsOf(par) {
+				if w.Visited[ret] {
+					any = true
+					if !isFailureReturn(par, ret) {
+						allFail = false
+					}
+				}
+			}
+			if !any {
+				allFail = false
+			}
+		}
+		if allFail {
+			return true, "local clean-up helper called only on failing paths"
+		}
+	}
+	// conditional cleanup in a deferred closure
+	deferred := false
+	instrsOf(par, func(x ssa.Instruction) {
+		if d, ok := x.(*ssa.Defer); ok {
+			if mc, ok := d.Call.Value.(*ssa.MakeClosure); ok && mc.Fn == ssa.Value(f) {
+				deferred = true
+			}
+		}
+	})
+	rootedAtFreeVar := func(v ssa.Value) bool {
+		for _, s := range sources(v) {
+			x := s
+			for d := 0; d < 6; d++ {
+				switch y := x.(type) {
+				case *ssa.FreeVar:
+					return true
+				case *ssa.UnOp:
+					x = y.X
+					continue
+				case *ssa.FieldAddr:
+					x = y.X
+					continue
+				}
+				break
+			}
+		}
+		return false
+	}
+	if deferred && controlledBy(f, c, func(cd *Cond) bool {
+		if cd.X != nil && cd.Y != nil {
+			return rootedAtFreeVar(cd.X) || rootedAtFreeVar(cd.Y)
+		}
+		return cd.V != nil && rootedAtFreeVar(cd.V)
+	}) {
+		return true, "conditional cleanup in a deferred closure"
+	}
+	return false, ""
+}
+
 // errAlwaysNilAt: the error result of call c (a module function) is nil on every path: each return of the callee has a
 // nil error, or forwards the error result of a call to one of its function-typed parameters whose argument at c is a
 // closure (or function) that returns only nil errors.
@@ -564,7 +703,15 @@ func ruleC02MetaSymmetry(r *Run, p *Program, rule string) {
 				}
 				ap := accessPath(nil, c.Call.Args[2])
 				np := accessPath(nil, bo.X)
-				okv = strings.HasSuffix(ap.Chain, ".meta") && strings.HasSuffix(np.Chain, ".name") && ap.Root == np.Root
+				// the segment may live in a cell captured by a closure: compare what the roots were loaded from
+				rootOf := func(a AccessPath) ssa.Value {
+					r0 := a.Root
+					if u, ok := r0.(*ssa.UnOp); ok {
+						return u.X
+					}
+					return r0
+				}
+				okv = strings.HasSuffix(ap.Chain, ".meta") && strings.HasSuffix(np.Chain, ".name") && (ap.Root == np.Root || rootOf(ap) == rootOf(np))
 			})
 		}
 		r.check(okv, rule, "(*pogreb.datalog).close:meta-of-segment", p.Pos(f.Pos()), "each segment's own meta is written under that segment's name + .pmt", "datalog.close does not write each segment's own metadata under that segment's name")
